@@ -1182,6 +1182,18 @@ class Variogram(object):
         # re-calculate distances
         self._X = MetricSpace(self._X.coords, func, self._X.max_dist)
 
+        # everything derived from the distances is outdated now
+        self._diff = None
+        self._groups = None
+        self._bin_count = None
+        if (
+            hasattr(self, '_maxlag_passed_value') and
+            getattr(self, '_bin_func_name', None) != 'custom_bin_edges'
+        ):
+            # resolves a relative, 'median' or 'mean' maxlag for the new
+            # distances and resets the lag edges
+            self.maxlag = self._maxlag_passed_value
+
     @property
     def distance(self):
         # handle sparse matrix
@@ -1247,6 +1259,10 @@ class Variogram(object):
         self._bins = None
         self._groups = None
         self._bin_count = None
+
+        # remember the setting as passed (a relative or 'median' / 'mean'
+        # maxlag has to be resolved again if the distances change)
+        self._maxlag_passed_value = value
 
         # set new maxlag
         if value is None:
